@@ -275,8 +275,8 @@ theorem cancelRequest_none {s : St} {id : Nat} {s' : St} (h : cancelRequest s id
 theorem insertRequest_cases (s : St) (now : Nat) (r : DReq) :
     ∃ s', insertRequest s now r = some s' ∧
       ((∃ site, s'.poisoned = true ∧ view s' = { view s with poisoned := true, rel := .panic (tid s) site :: (view s).rel }) ∨
-       (findEntry s r.id = none ∧ s'.poisoned = s.poisoned ∧ ∃ key, view s' =
-          { view s with inflight := (view s).inflight ++ [{ id := r.id, cid := r.cid, ctx := r.ctx, timerKey := key }] })) := by
+       (findEntry s r.id = none ∧ s'.poisoned = s.poisoned ∧ ∃ key rem, view s' =
+          { view s with inflight := (view s).inflight ++ [{ id := r.id, cid := r.cid, ctx := r.ctx, timerKey := key, remainder := rem }] })) := by
   -- (`split` on the function's own `match`, not `cases` on a generalised result: the kernel must not be made to
   -- evaluate `DelayQ.insert … (clampTimeout …)`)
   unfold insertRequest
@@ -288,9 +288,9 @@ theorem insertRequest_cases (s : St) (now : Nat) (r : DReq) :
     · exact ⟨_, rfl, Or.inl ⟨_, rfl, by rw [view_emit_rel _ _ rfl]; rfl⟩⟩
     · rename_i q key w hq
       cases w with
-      | false => exact ⟨_, rfl, Or.inr ⟨hf', rfl, key, rfl⟩⟩
+      | false => exact ⟨_, rfl, Or.inr ⟨hf', rfl, key, _, rfl⟩⟩
       | true =>
-        refine ⟨_, rfl, Or.inr ⟨hf', ?_, key, ?_⟩⟩
+        refine ⟨_, rfl, Or.inr ⟨hf', ?_, key, (r.ctx.deadline - now) - clampTimeout (r.ctx.deadline - now), ?_⟩⟩
         · simp
         · simp only [↓reduceIte]; rw [view_wakeDispatch]; rfl
 
@@ -416,7 +416,7 @@ theorem pollWriteRequest_pres {s : St} (h : P none (view s)) (now : Nat) :
     obtain ⟨s2, hins, hcase⟩ := insertRequest_cases s1 now r
     rw [hins]
     simp only
-    rcases hcase with ⟨site, hpois, hv⟩ | ⟨hfe, hpois, key, hv⟩
+    rcases hcase with ⟨site, hpois, hv⟩ | ⟨hfe, hpois, key, rem, hv⟩
     · simp only [hpois, ↓reduceIte]
       exact ⟨hv ▸ hP.panic _ site hi1, fun _ => Or.inr hpois⟩
     · have hi2 : P (some r.id) (view s2) := by
@@ -425,7 +425,7 @@ theorem pollWriteRequest_pres {s : St} (h : P none (view s)) (now : Nat) :
           obtain ⟨c, hc, hrx⟩ := osIsClosed_view hcl
           rw [hv1] at hc
           exact ⟨c, hc, hrx⟩
-        exact hP.popInsert (v := v1) key hv1P hv1pq hnc
+        exact hP.popInsert (v := v1) key rem hv1P hv1pq hnc
       by_cases hp2 : s2.poisoned = true
       · simp only [hp2, ↓reduceIte]
         exact ⟨hP.drop_x hi2 (Or.inl hp2), fun _ => Or.inr hp2⟩
@@ -434,7 +434,7 @@ theorem pollWriteRequest_pres {s : St} (h : P none (view s)) (now : Nat) :
         rcases ht : tSend s2 (.request r.id r.ctx.deadline r.ctx.trace r.body) with ⟨s3, ok⟩
         rw [ht] at hts
         simp only at hts ⊢
-        have hmem : ({ id := r.id, cid := r.cid, ctx := r.ctx, timerKey := key } : Entry) ∈ (view s2).inflight := by
+        have hmem : ({ id := r.id, cid := r.cid, ctx := r.ctx, timerKey := key, remainder := rem } : Entry) ∈ (view s2).inflight := by
           rw [hv]; simp
         have hcall : ∃ c, (view s2).get r.cid = some c ∧ c.rxClosed = false ∧ r.body = c.body := by
           obtain ⟨c, hc, hrx⟩ := osIsClosed_view hcl
@@ -450,11 +450,11 @@ theorem pollWriteRequest_pres {s : St} (h : P none (view s)) (now : Nat) :
         | false =>
           simp only [Bool.false_eq_true, ↓reduceIte] at hts ⊢
           refine ⟨?_, fun h => by cases h⟩
-          have hinf3 : s3.inflight = s1.inflight ++ [{ id := r.id, cid := r.cid, ctx := r.ctx, timerKey := key }] := by
+          have hinf3 : s3.inflight = s1.inflight ++ [{ id := r.id, cid := r.cid, ctx := r.ctx, timerKey := key, remainder := rem }] := by
             have : (view s3).inflight = (view s2).inflight := by rw [hts]
-            have h2 : (view s2).inflight = (view s1).inflight ++ [{ id := r.id, cid := r.cid, ctx := r.ctx, timerKey := key }] := by rw [hv]
+            have h2 : (view s2).inflight = (view s1).inflight ++ [{ id := r.id, cid := r.cid, ctx := r.ctx, timerKey := key, remainder := rem }] := by rw [hv]
             exact this.trans h2
-          have hf3 : findEntry s3 r.id = some { id := r.id, cid := r.cid, ctx := r.ctx, timerKey := key } := by
+          have hf3 : findEntry s3 r.id = some { id := r.id, cid := r.cid, ctx := r.ctx, timerKey := key, remainder := rem } := by
             unfold findEntry at hfe ⊢
             rw [hinf3, List.find?_append, hfe]
             simp
@@ -554,27 +554,49 @@ section generic
 variable {P : Option Nat → View → Prop} (hP : PresD P)
 include hP
 
-theorem pollExpired_pres {x : Option Nat} {s : St} (h : P x (view s)) (now : Nat) :
-    P x (view (pollExpired s now).1) := by
-  unfold pollExpired
-  rcases hq : s.timers.pollExpired now with ⟨q, res⟩
-  cases res with
-  | pending => exact h
-  | none => exact h
-  | expired e =>
-    simp only
-    cases hf : findEntry { s with timers := q } e.val with
-    | none => exact h
-    | some en =>
+theorem rearmWith_pres {x : Option Nat} {s : St} (h : P x (view s)) (id t : Nat)
+    (r : DelayQ × DelayQ.InsertRes × Bool) : P x (view (rearmWith s id t r).st) := by
+  unfold rearmWith; split
+  · show P x (view (emit _ _))
+    rw [view_emit_rel _ _ rfl]
+    exact hP.panic (v := view s) (tid s) _ h
+  · show P x (view (if _ then _ else _))
+    split
+    · rw [view_wakeDispatch]; exact hP.infRearm id _ t h
+    · exact hP.infRearm id _ t h
+
+theorem expireWith_pres {x : Option Nat} {s : St} (h : P x (view s)) (now : Nat) (r : DelayQ × DelayQ.PollRes) :
+    P x (view (expireWith s now r).st) := by
+  unfold expireWith; split
+  · rename_i q e
+    split
+    · rename_i en hf
       obtain ⟨hmem, hid⟩ := findEntry_some hf
-      simp only
-      rw [view_osSend', ← hid]
-      have := hP.completeN (v := view s) h hmem .deadline rfl false (tid s) ""
-      have e1 : ({ view s with inflight := (view s).inflight.filter (·.id != en.id), poisoned := (view s).poisoned || false, rel := stopObs false (tid s) "" ++ (view s).rel } : View)
-          = view { s with timers := q, inflight := s.inflight.filter (·.id != en.id) } := by
-        simp [stopObs, view]
-      rw [e1] at this
-      exact this
+      split
+      · exact rearmWith_pres hP h _ _ _
+      · show P x (view (osSend _ _ _))
+        rw [view_osSend', ← hid]
+        have := hP.completeN (v := view s) h hmem .deadline rfl false (tid s) ""
+        have e1 : ({ view s with inflight := (view s).inflight.filter (·.id != en.id), poisoned := (view s).poisoned || false, rel := stopObs false (tid s) "" ++ (view s).rel } : View)
+            = view { s with timers := q, inflight := s.inflight.filter (·.id != en.id) } := by
+          simp [stopObs, view]
+        rw [e1] at this
+        exact this
+    · exact h
+  · exact h
+
+theorem pollExpiredLoop_pres {x : Option Nat} (fuel : Nat) {s : St} (h : P x (view s)) (now : Nat) :
+    P x (view (pollExpiredLoop fuel s now).1) := by
+  induction fuel generalizing s with
+  | zero => exact h
+  | succ fuel ih =>
+    have h1 : P x (view (expireStep s now).st) := expireWith_pres hP h now _
+    unfold pollExpiredLoop; split <;> rename_i heq <;> rw [heq] at h1
+    · exact ih h1
+    · exact h1
+
+theorem pollExpired_pres {x : Option Nat} {s : St} (h : P x (view s)) (now : Nat) :
+    P x (view (pollExpired s now).1) := pollExpiredLoop_pres hP _ h now
 
 theorem pumpRead_pres {s : St} (h : P none (view s)) : P none (view (pumpRead s).1) := by
   unfold pumpRead
@@ -629,6 +651,7 @@ theorem pumpWrite_tail {s2 : St} (h2 : P none (view s2)) (now : Nat) (reqClosed 
     PWOk P
         (let (s, exp) := pollExpired s2 now
             if exp then (s, PW.some ())
+            else if s.poisoned then (s, PW.spin)
             else if reqClosed && canClosed then
               match tClose s with
               | (s, .pending) => (s, PW.pending)
@@ -646,6 +669,8 @@ theorem pumpWrite_tail {s2 : St} (h2 : P none (view s2)) (now : Nat) (reqClosed 
   split
   · exact ⟨h3, fun h => (by cases h)⟩
   · split
+    · rename_i hpo; exact ⟨h3, fun _ => Or.inr hpo⟩
+    split
     · have hv := view_tClose s3
       rcases htc : tClose s3 with ⟨s4, r⟩
       rw [htc] at hv
@@ -664,6 +689,7 @@ theorem pumpWrite_mid {s1 : St} (hi1 : P none (view s1)) (now : Nat) (reqClosed 
             let canClosed := match canStatus with | .none => true | _ => false
             let (s, exp) := pollExpired s now
             if exp then (s, PW.some ())
+            else if s.poisoned then (s, PW.spin)
             else if reqClosed && canClosed then
               match tClose s with
               | (s, .pending) => (s, PW.pending)
